@@ -47,6 +47,16 @@ def gen_scenario(rng, i, family=None):
         sc["ops"].append({"op": "run", "model": 0, "X": scengen.rows(rng, 2, d)})
     if rng.random() < 0.4:
         sc["ops"].append({"op": "run", "model": 0, "X": scengen.rows(rng, rng.randint(2, 3), d), "reset": True})
+    # one run over a LIST of sequences: every sequence starts from what the flags say (reset / restored states), in particular the
+    # receiver's first step of sequence 2, 3, ... must not see the sender's last output of the previous sequence
+    if rng.random() < 0.6:
+        flags = rng.choice([{"reset": True}, {"stateful": False}, {"reset": True, "stateful": False}, {}])
+        o = dict({"op": "runs", "model": 0, "Xs": [scengen.rows(rng, rng.randint(1, 3), d) for _ in range(rng.randint(2, 3))]}, **flags)
+        if rng.random() < 0.3:
+            o["fbs"] = {str(key): [scengen.rows(rng, len(x), fbdim) for x in o["Xs"]]}
+            o["shift_fb"] = rng.random() < 0.7
+        sc["ops"].append(o)
+        sc["ops"].append({"op": "run", "model": 0, "X": scengen.rows(rng, 2, d)})
     # single-step calls that start from a reset / a given sender state: the receiver must see THAT state (zero / the given one)
     odim = {nd["id"]: nd["odim"] for nd in sk["nodes"]}
     in_model = sk["models"][0]["nodes"]
@@ -178,6 +188,28 @@ def _judge(sc):
                 return _viol("call:from_state-not-seen-by-feedback", "%s: call(from_state={sender: s}): the receiver saw %s instead of s = %s"
                              % (sc["family"], fb_seen.tolist(), sv.ravel().tolist()), sc, sv.ravel().tolist(), fb_seen.tolist())
             r = model.run(scen.fl(scengen.rows(rng, 2, d)), from_state={sender.name: sv}, return_states="all")
+        # one run over several sequences: the first step of EVERY sequence sees what the flags say the sender holds then --
+        # zero with reset=True, the sender's state before the run with stateful=False, its last output otherwise
+        if not outside:
+            for flags in ({"reset": True}, {"stateful": False}, {}):
+                model.run(scen.fl(scengen.rows(rng, 2, d)))                      # the sender holds a non-trivial output
+                before = np.asarray(sender.state()).ravel().copy()
+                Xs = [scen.fl(scengen.rows(rng, rng.randint(2, 3), d)) for _ in range(rng.randint(2, 3))]
+                res = model.run(Xs, return_states="all", **flags)
+                for k, Xk in enumerate(Xs):
+                    stk = {name: seqs[k] for name, seqs in res.items()}
+                    fb_seen = (stk[recv.name][0] - recv_input(stk, Xk, 0)) / 100.0
+                    if flags.get("reset"):
+                        exp = np.zeros_like(before)
+                    elif flags.get("stateful") is False or k == 0:
+                        exp = before
+                    else:
+                        exp = {name: seqs[k - 1] for name, seqs in res.items()}[sender.name][-1]
+                    if not np.allclose(fb_seen, exp, atol=1e-9):
+                        return _viol("multi-sequence:first-step-feedback:%s" % ("reset" if flags.get("reset") else "stateless" if "stateful" in flags else "stateful"),
+                                     "%s: run over %d sequences with %s: at the first step of sequence %d the receiver saw %s, expected %s"
+                                     % (sc["family"], len(Xs), flags or "default flags", k, fb_seen.tolist(), np.asarray(exp).tolist()), sc,
+                                     np.asarray(exp).tolist(), fb_seen.tolist())
         # after a forced run the unforced semantics is back: first step sees the sender's last real output
         X = scen.fl(scengen.rows(rng, 2, d))
         last = np.asarray(sender.state()).ravel()
